@@ -19,6 +19,8 @@ package ast
 import (
 	"github.com/michaelquigley/pfxlog"
 	"github.com/openziti/storage/zitiql"
+	"github.com/pkg/errors"
+	"reflect"
 	"sync/atomic"
 )
 
@@ -43,6 +45,28 @@ func Parse(symbolTypes SymbolTypes, query string) (Query, error) {
 	}
 
 	return listener.getQuery(symbolTypes)
+}
+
+// NewSymbolEqualsStringQuery returns the query for <symbol> = "<value>". The query is built directly, rather than
+// parsed from query text, so the value may contain any character and doesn't need to be escaped
+func NewSymbolEqualsStringQuery(symbolTypes SymbolTypes, symbol string, value string) (Query, error) {
+	var query BoolNode = &untypedQueryNode{
+		predicate: &BinaryExprNode{
+			left:  &UntypedSymbolNode{symbol: symbol},
+			right: &StringConstNode{value: value},
+			op:    BinaryOpEQ,
+		},
+		sortBy: &SortByNode{},
+	}
+
+	if err := PostProcess(symbolTypes, &query); err != nil {
+		return nil, err
+	}
+
+	if result, ok := query.(Query); ok {
+		return result, nil
+	}
+	return nil, errors.Errorf("unexpected query type %v", reflect.TypeOf(query))
 }
 
 func PostProcess(symbolTypes SymbolTypes, node *BoolNode) error {
